@@ -64,6 +64,11 @@ def run(tier, seed):
     lib.harness(["serde-rt", ip, op])
     types = {}
     for o in lib.read_ndjson(op):
+        if o["id"] == "__wellknown__":
+            v.case("wellknown")
+            for bdy in o["bad"]:
+                v.violation("a unit variant named like one of the atoms the library keeps pre-built does not round-trip as itself", bdy)
+            continue
         if o["id"] == "__concurrent__":
             v.case("concurrent")
             if not o["round_trips_alone"]:
